@@ -16,7 +16,7 @@ DESCRIPTION = {
 
 
 def plan(tier, seed):
-    n = 600 if tier == "quick" else 5000
+    n = 600 if tier == "quick" else 12000
     jobs = []
     for i, fw in enumerate(("twisted", "asyncio")):
         for sh in range(2 if tier == "quick" else 6):
